@@ -185,6 +185,30 @@ Fixpoint ord_cmp (a b : value) : comparison :=
   | _, _ => N.compare (rank a) (rank b)
   end.
 
+(* a total structural order (entities by id), used only to normalise collected lists *)
+Definition rank_tot (v : value) : N :=
+  match v with
+  | VNode _ => 0 | VRel _ => 1 | VList _ => 2 | VStr _ => 3 | VBool _ => 4 | VInt _ => 5 | VNull => 6
+  end.
+Fixpoint tot_cmp (a b : value) : comparison :=
+  match a, b with
+  | VNull, VNull => Eq
+  | VBool x, VBool y => match x, y with false, true => Lt | true, false => Gt | _, _ => Eq end
+  | VInt x, VInt y => Z.compare x y
+  | VStr x, VStr y => lex_cmp x y
+  | VNode x, VNode y => N.compare x y
+  | VRel x, VRel y => N.compare x y
+  | VList x, VList y =>
+      (fix go (x y : list value) : comparison :=
+         match x, y with
+         | [], [] => Eq
+         | [], _ => Lt
+         | _, [] => Gt
+         | u :: x', v :: y' => match tot_cmp u v with Eq => go x' y' | c => c end
+         end) x y
+  | _, _ => N.compare (rank_tot a) (rank_tot b)
+  end.
+
 (* ---------- configuration ----------
    The reference semantics is [ref_cfg].  [eng_cfg] switches on the deviations of the
    pinned engine that are recorded as known findings (known_findings.txt), so that a case
@@ -192,9 +216,11 @@ Fixpoint ord_cmp (a b : value) : comparison :=
 Record cfg := CF {
   cf_eq3_lists : bool;       (* = and <> on two lists are three-valued (a null inside makes them unknown) *)
   cf_path_iso : bool;        (* relationship isomorphism also across the comma-separated paths of a MATCH *)
-  cf_with_empty_agg : bool   (* WITH <aggregates only> over no rows yields one row *) }.
-Definition ref_cfg : cfg := CF true true true.
-Definition eng_cfg : cfg := CF false false false.
+  cf_with_empty_agg : bool;  (* WITH <aggregates only> over no rows yields one row *)
+  cf_sum_distinct : bool;    (* sum(DISTINCT x) removes duplicates *)
+  cf_collect_distinct_entities : bool (* collect(DISTINCT x) keeps nodes and relationships *) }.
+Definition ref_cfg : cfg := CF true true true true true.
+Definition eng_cfg : cfg := CF false false false false false.
 
 (* ---------- expressions ---------- *)
 Inductive cmpop := OEq | ONe | OLt | OLe | OGt | OGe.
